@@ -211,7 +211,7 @@ def monitor(ops, lines, which):
     for i, (op, ln) in enumerate(zip(ops, lines)):
         d = parse(ln)
         w = op.split()[0]
-        if w == "new":
+        if w in ("new", "rnew"):
             hw_prev, acked_prev = 0, []
         if w == "readcheck":
             if "C06" in which and d["res"] == "ok":
@@ -460,6 +460,8 @@ def corpus(ck, binary, pid, which):
     scheds = []
     for fn in sorted(glob.glob(os.path.join(lib.REPLAYS, pid + "-*.json"))):
         ops = json.load(open(fn))["ops"]
+        if ops and ops[0].startswith("rnew"):
+            continue  # registry schedules are replayed by checks/C06.run_registry against StorageLogRegistry
         scheds.append((ops, run_impl_batch(ck, binary, ops)))
     ck.count("corpus", len(scheds))
     return check_schedules(ck, binary, scheds, which, "corpus replays/%s-*.json" % pid)
@@ -484,7 +486,7 @@ def hunt(ck, binary, which, plans, n):
     return False
 
 
-def replay(ck, path, which):
+def replay(ck, path, which, mon_fn=None):
     import json
     rep = json.load(open(path))
     bins = ck.build_all()
@@ -497,6 +499,6 @@ def replay(ck, path, which):
     ck.case(tuple(ops), sample={"ops": ops})
     ck.cov["evaluations"] = max(ck.cov["evaluations"], 1)
     ck.cov["distinct_nontrivial"] = max(ck.cov["distinct_nontrivial"], 2)
-    mon = monitor(ops, lines, which)
+    mon = (mon_fn or (lambda o, l: monitor(o, l, which)))(ops, lines)
     if mon:
         ck.violation(mon[1], mon[2], {"ops": ops, "actual": mon[2]})
